@@ -59,8 +59,8 @@ def plan(tier, seed):
         for i in range(2 if tier == "quick" else 6):
             out.append({"mode": "pipelines", "backend": backend, "case_seed": seed * 7919 + i, "n": pipes})
         out.append({"mode": "lists", "backend": backend, "case_seed": seed})
-    for i in range(2 if tier == "quick" else 8):
-        out.append({"mode": "race", "backend": "sql" if i % 2 == 0 else "lmdb", "case_seed": seed * 7919 + i, "refreshes": 12 if tier == "quick" else 60})
+    for i in range(4 if tier == "quick" else 12):
+        out.append({"mode": "race", "backend": "sql" if i % 4 < 2 else "lmdb", "case_seed": (seed * 7919 + i) * 2 + (i % 2), "refreshes": 12 if tier == "quick" else 60})
     return out
 
 
@@ -190,9 +190,43 @@ def boundary_events(k1, k2, svc):
     return out
 
 
+async def run_broken_validator(backend, counters):
+    """fail-closed: a configured validator that cannot decide (raises something that is not
+    a StorageError - here is_certain_kind without valid_kinds) must refuse, never admit"""
+    viols, nontrivial = [], []
+    k1 = ref.key_from_seed("c16-a")
+    for chain in (["nostr_relay.validators.is_signed", "nostr_relay.validators.is_certain_kind"],
+                  ["nostr_relay.validators.is_certain_kind", "nostr_relay.validators.is_signed"],
+                  ["nostr_relay.validators.is_signed", "nostr_relay.validators.is_author_whitelisted", "nostr_relay.validators.is_not_hellthread"]):
+        rig = R.Rig(backend=backend, config={"analysis_delay": 0}, storage_options={"validators": chain})
+        await rig.start()
+        try:
+            watcher = rig.connect("w")
+            await watcher.cmd(["REQ", "w", {"since": 1}])
+            conn = rig.connect("s")
+            for i in range(3):
+                raw = ref.make_event(k1, kind=1, created_at=NOW + i, content="undecidable %d" % i)
+                n0 = rig.rec.n
+                await conn.cmd(["EVENT", raw])
+                await rig.quiesce()
+                oks = R.ok_frames(conn, n0)
+                ok = oks[-1][1][2] if oks else None
+                stored = raw["id"] in dump.dump(rig)["events"]
+                pushed = any(isinstance(f, list) and len(f) > 2 and f[0] == "EVENT" and f[2].get("id") == raw["id"] for _, f in watcher.parsed_frames(n0))
+                counters.setdefault("pipeline", {})
+                counters["pipeline"]["undecidable_events"] = counters["pipeline"].get("undecidable_events", 0) + 1
+                nontrivial.append(h(["broken", backend, tuple(chain), i]))
+                if ok is True or stored or pushed:
+                    viols.append({"key": "pipeline/fail-open-on-validator-error", "msg": "[%s] chain %s with a validator that raises (missing setting): event ok=%s stored=%s pushed=%s"
+                                  % (backend, [c.rsplit('.', 1)[1] for c in chain], ok, stored, pushed), "replay": {"mode": "pipelines", "backend": backend}})
+        finally:
+            await rig.close()
+    return viols, nontrivial
+
+
 async def run_pipelines(backend, n, counters, seed):
     r = random.Random(seed)
-    viols, nontrivial = [], []
+    viols, nontrivial = await run_broken_validator(backend, counters)
     pc = counters.setdefault("pipeline", {})
     k1, k2, svc = ref.key_from_seed("c16-a"), ref.key_from_seed("c16-b"), ref.key_from_seed("service")
     pipes = [list(p) for p in itertools.permutations(PIPE_VALIDATORS, 2)]
@@ -360,9 +394,15 @@ async def run_race(backend, refreshes, counters, seed):
     owner, reporter = ref.key_from_seed("c16-owner"), ref.key_from_seed("c16-rep")
     outsider = ref.key_from_seed("c16-outsider").pk
     denied = ref.key_from_seed("c16-denied").pk
-    # the denied key is on the allow list too, so that only the deny list keeps it out
-    L1 = [ref.key_from_seed("c16-m%d" % i).pk for i in range(3)] + [denied]
-    L2 = [ref.key_from_seed("c16-m%d" % i).pk for i in range(2, 6)] + [denied]
+    disjoint = seed % 2 == 1
+    if disjoint:
+        # successive allow lists share no key at all (and no static whitelist is configured)
+        L1 = [ref.key_from_seed("c16-m%d" % i).pk for i in range(3)]
+        L2 = [ref.key_from_seed("c16-m%d" % i).pk for i in range(3, 6)]
+    else:
+        # the denied key is on the allow list too, so that only the deny list keeps it out
+        L1 = [ref.key_from_seed("c16-m%d" % i).pk for i in range(3)] + [denied]
+        L2 = [ref.key_from_seed("c16-m%d" % i).pk for i in range(2, 6)] + [denied]
     cfg = {"analysis_delay": 0, "pubkey_whitelist": [],
            "dynamic_lists": {"check_interval": 7200, "allow_list_queries": [{"kinds": [3], "authors": [owner.pk]}], "deny_list_queries": [{"kinds": [10000], "authors": [reporter.pk]}]}}
     rig = R.Rig(backend=backend, config=cfg)
@@ -387,7 +427,7 @@ async def run_race(backend, refreshes, counters, seed):
         stop = threading.Event()
         stats = {"checks": 0, "during": 0, "outsider_admitted": 0, "denied_admitted": 0, "member_refused": 0}
         lock = threading.Lock()
-        member_always = L1[2]  # in L1 and in L2
+        member_always = L1[2]  # in L1 and (unless disjoint) in L2
 
         def checker():
             fo, fd, fm = types.SimpleNamespace(pubkey=outsider), types.SimpleNamespace(pubkey=denied), types.SimpleNamespace(pubkey=member_always)
@@ -456,7 +496,8 @@ async def run_race(backend, refreshes, counters, seed):
         if stats["outsider_admitted"]:
             viols.append({"key": "race/allow-list-treated-as-empty", "msg": "[%s] a never-listed pubkey was admitted %d times (of %d checks, %d during refreshes) while an allow list was enforced before and after each refresh"
                           % (backend, stats["outsider_admitted"], stats["checks"], stats["during"]), "replay": rp})
-        if stats["denied_admitted"]:
+        rc["disjoint_runs" if disjoint else "overlapping_runs"] = rc.get("disjoint_runs" if disjoint else "overlapping_runs", 0) + 1
+        if stats["denied_admitted"] and not disjoint:
             viols.append({"key": "race/deny-list-treated-as-empty", "msg": "[%s] a pubkey on the deny list before and after every refresh was admitted %d times (of %d checks)"
                           % (backend, stats["denied_admitted"], stats["checks"]), "replay": rp})
         rc["always_member_refused"] = rc.get("always_member_refused", 0) + stats["member_refused"]
